@@ -7,7 +7,7 @@ from typing import List, Optional, Set, Tuple
 from ..cfg import CFG, Node, cfg_of, dominating_edges, node_calls, reach
 from ..defuse import def_value, defs_of, reaching_defs
 from ..esp import UNKNOWN, run_function
-from ..model import Func, Repo, body_nodes, norm, short
+from ..model import Func, Repo, ancestors, body_nodes, norm, short
 from .C18 import replace_pair
 from .emit import Site, cfg_of_node, emission_sites, flag_values
 
@@ -26,6 +26,13 @@ def check(repo: Repo, rep, tier):
     clone_def(repo, rep)
     positional_map(repo, rep)
     emit_complete(repo, rep)
+    insert_once(repo, rep)
+    from .C11 import align_complete, align_window
+    from .C14 import accumulate
+
+    accumulate(repo, rep)
+    align_window(repo, rep)
+    align_complete(repo, rep)
     from .C01 import default_guard
     from .C14 import site_key
 
@@ -185,7 +192,7 @@ def judge(label: str, kind: str, facts: Set[str], same_value: bool, in_adapter_a
     if label == "fix":
         if "OLD_UNDEF" in facts and "NEQ" in facts and kind == "Replace":
             return False, "labelled fix for an undefined old value (that is a create)"
-        if {"NEQ", "CMP_ON_F", "SOME_NOT_IN_OLD"} & facts:
+        if {"NEQ", "CMP_ON_F", "SOME_NOT_IN_OLD"} & facts or ("NOT_IN_OLD" in facts and kind in INSERT_KINDS):
             return True, "fix under a failed comparison"
         if in_adapter_assign and kind in INSERT_KINDS and "SRC_FEWER" in facts:
             return False, (
@@ -260,6 +267,25 @@ def flag_label(repo: Repo, rep):
                     ok, why = True, verdicts[0][1] + f" (judged at {len(verdicts)} call site(s) of the helper)"
                 elif any(v[0] is False for v in verdicts):
                     ok, why = [v for v in verdicts if v[0] is False][0]
+            if ok is None and label in ("fix", "update") and s.kind == "Replace":
+                # the label must be decided by the comparison `old == new` itself and by nothing stricter or looser
+                dcfg = cfg_of_node(s, dnode)
+                eqs = []
+                for c_ in dcfg.conds():
+                    e_ = c_.ast
+                    if isinstance(e_, ast.Compare) and len(e_.ops) == 1 and isinstance(e_.ops[0], (ast.Eq, ast.NotEq)) and {role(e_.left), role(e_.comparators[0])} == {"old", "new"} and "token" not in norm(e_):
+                        eqs.append((c_, "T" if isinstance(e_.ops[0], ast.Eq) else "F"))
+                if eqs:
+                    from ..cfg import edges_dominate as _ed
+
+                    nes = [(c_, "F" if l_ == "T" else "T") for c_, l_ in eqs]
+                    if label == "fix" and not _ed(dcfg, nes, dnode):
+                        ok, why = False, (
+                            "labelled fix on a path where `old == new` was not found false (the decision is stricter than the comparison the test itself makes): an element that compares equal - "
+                            "`1.0` against `1`, `True` against `1` - is reported as incorrect and rewritten by fix"
+                        )
+                    elif label == "update" and not _ed(dcfg, eqs, dnode):
+                        ok, why = False, "labelled update on a path where `old == new` was not found true: an update could change the value"
             where = dnode.ast if dnode is not s.node else s.call
             if ok is True:
                 rep.ok("R-FLAG-LABEL", s.func, where, f"{s.kind} `{label}`: {why} [{', '.join(sorted(facts))[:80]}]")
@@ -466,3 +492,56 @@ def emit_complete(repo: Repo, rep):
             rep.ok("R-EMIT-COMPLETE", dv, rec[0], "sub-snapshots contribute their own changes")
         else:
             rep.violation("R-EMIT-COMPLETE", dv, dv.node, "DictValue._get_changes no longer collects the changes of its sub-snapshots: nothing below snapshot()[key] is ever created / fixed", construct="dict-value-recursion")
+
+
+def insert_once(repo: Repo, rep):
+    rep.rule(
+        "R-INSERT-ONCE",
+        "producer/consumer agreement on insertions: apply_all collects the ListInsert / DictInsert changes of one container in a mapping keyed by their "
+        "position (a later one at the same position replaces the earlier one).  So an emitter never yields such a change inside a loop with a position "
+        "that does not change from one iteration to the next: all values for one position travel in ONE change.  Yielding one insertion per missing member, "
+        "each at `len(old)`, writes only the last of them (`x in snapshot([200])` for 404 and 500 is fixed to `[200, 500]`)",
+    )
+    ap = repo.func("_change.py::apply_all")
+    overwrites = {}
+    for x in body_nodes(ap.node):
+        if isinstance(x, ast.DictComp) and isinstance(x.key, ast.Attribute) and x.key.attr == "position":
+            for g in x.generators:
+                for i in g.ifs:
+                    for y in ast.walk(i):
+                        if isinstance(y, ast.Name) and y.id in ("ListInsert", "DictInsert"):
+                            overwrites[y.id] = x
+    n = 0
+    for s in emission_sites(repo):
+        if s.kind not in overwrites:
+            continue
+        pos = s.args.get("position")
+        if pos is None:
+            continue
+        n += 1
+        loops = [a for a in ancestors(s.call) if isinstance(a, (ast.For, ast.While)) and a is not s.func.node]
+        # only loops inside the emitting function
+        loops = [a for a in loops if any(a is y for y in ast.walk(s.func.node))]
+        bad = None
+        for lp in loops:
+            changing = {x.id for x in ast.walk(lp.target) if isinstance(x, ast.Name)} if isinstance(lp, ast.For) else set()
+            for y in ast.walk(lp):
+                if isinstance(y, (ast.Assign, ast.AugAssign)):
+                    for t in y.targets if isinstance(y, ast.Assign) else [y.target]:
+                        changing |= {x.id for x in ast.walk(t) if isinstance(x, ast.Name)}
+            names = {x.id for x in ast.walk(pos) if isinstance(x, ast.Name)}
+            # `len(self._old_value)`: an attribute of self that the loop does not assign is invariant too
+            if not (names & changing) and not any(isinstance(y, (ast.Assign, ast.AugAssign)) and norm(pos) in norm(y) for y in ast.walk(lp) if False):
+                bad = lp
+        if bad is not None:
+            rep.violation(
+                "R-INSERT-ONCE",
+                s.func,
+                s.call,
+                f"{s.func.qualname} yields a {s.kind} inside a loop with the loop-invariant position `{short(pos, 40)}`: apply_all keys the insertions of a container by position, so only the last of them is written - "
+                "the values found missing in one session are not all added by fix",
+                construct=f"{s.func.qualname}:{s.kind}:loop-invariant-position",
+            )
+        else:
+            rep.ok("R-INSERT-ONCE", s.func, s.call, f"{s.kind}: one change per position")
+    rep.floor("R-INSERT-ONCE", "ListInsert/DictInsert emission sites", n, 4)
